@@ -309,6 +309,30 @@ def reconnect_family(rep, rnd, n):
     rep.families.append(dict(name="C10:reconnect", cases=cases, rule="two attempts on one WebSocket object (first: Ready / wrong accept / bad Upgrade), the second with a fresh key and a reply carrying the digest of its own key (Ready expected) or of the previous attempt's key (Rejected expected)"))
 
 
+def fresh_keys():
+    """the Sec-WebSocket-Key of three successive requests of one WebSocket object, os.urandom on a tape"""
+    import lomond.websocket as W
+    seen = []
+    old = W.os
+    tape = [bytes([i]) * 16 for i in range(1, 6)]
+
+    class OsP(object):
+        def urandom(self, n):
+            return tape.pop(0) if n == 16 else old.urandom(n)
+
+        def __getattr__(self, k):
+            return getattr(old, k)
+    W.os = OsP()
+    try:
+        ws = W.WebSocket("ws://example.test/")
+        for i in range(3):
+            ws.reset()
+            seen.append(ws.build_request())
+    finally:
+        W.os = old
+    return [[l for l in r.split(b"\r\n") if l.lower().startswith(b"sec-websocket-key")][0].split(b":")[1].strip() for r in seen]
+
+
 def run(rep, info, model, tier, seed):
     rnd = random.Random(seed)
     proof_ok = rep.proof_obligations(info, "props/C10.v")
@@ -338,27 +362,8 @@ def run(rep, info, model, tier, seed):
         if dis and not rep.violations:
             rep.broken("correspondence C10:requests: model build_request differs from the implementation on %d requests; first: %r" % (dis, first))
     # fresh key per connection on the same object
-    import lomond.websocket as W
-    seen = []
-    old = W.os
-    tape = [bytes([i]) * 16 for i in range(1, 6)]
-
-    class OsP(object):
-        def urandom(self, n):
-            return tape.pop(0) if n == 16 else old.urandom(n)
-
-        def __getattr__(self, k):
-            return getattr(old, k)
-    W.os = OsP()
-    try:
-        ws = W.WebSocket("ws://example.test/")
-        for i in range(3):
-            ws.reset()
-            seen.append(ws.build_request())
-    finally:
-        W.os = old
+    ks = fresh_keys()
     rep.add_case("fresh-key")
-    ks = [[l for l in r.split(b"\r\n") if l.lower().startswith(b"sec-websocket-key")][0].split(b":")[1].strip() for r in seen]
     if len(set(ks)) != 3 or any(base64.b64decode(k) == b"" for k in ks):
         rep.violation("successive connection attempts on one WebSocket reuse the handshake key (%r)" % ks, scenario=dict(kind="fresh-key"), family="C10:fresh-key")
     # ---- the accept value is checked against the key of THIS attempt, also on a WebSocket object that was connected before
@@ -398,8 +403,11 @@ def replay(body):
         print("REPLAY:", "VIOLATION reproduced" if bad else "property holds on this input")
         return 1 if bad else 0
     if sc.get("kind") == "fresh-key":
-        print("in-process check of three successive keys: re-run /venv/bin/python /verif/check.py C10 quick")
-        return 2
+        ks = fresh_keys()
+        bad = len(set(ks)) != 3 or any(base64.b64decode(k) == b"" for k in ks)
+        print("keys of three successive requests:", ks)
+        print("REPLAY:", "VIOLATION reproduced" if bad else "property holds on this input")
+        return 1 if bad else 0
     if body.get("family") in ("C10:replies", "C10:requests") and ("_exp" in sc or "_kind" in sc):
         def reply_o(sc, tr, extra):
             sc.setdefault("_proto", None)
